@@ -290,4 +290,33 @@ directions is exactly `==` on fields -/
 def Canonical (e : Env) (f : FieldSig) : Prop :=
   ∀ k v, dGet f.attrs k = some v → v ≠ e.attrDefault f.ftype k
 
+/-- closure: a deleted field — the hinted `DeleteField` removes exactly that field; every other field
+of the model is looked up as before (so no other difference appears or disappears) -/
+theorem C05_closure_deleteField (e : Env) (m : ModelSig) (n : String) (f : FieldSig)
+    (hf : m.getField n = some f) (hpk : truthy (e.attrValue f "primary_key") = false) :
+    ∃ m', simDeleteField e n m = .ok m' ∧ m'.getField n = none ∧
+      ∀ k, k ≠ n → m'.getField k = m.getField k := by
+  unfold simDeleteField
+  simp only [hf, hpk, Bool.false_eq_true, if_false]
+  refine ⟨_, rfl, ?_, ?_⟩
+  · unfold ModelSig.getField ModelSig.removeField
+    simp only
+    rw [List.find?_eq_none]
+    intro x hx
+    simp only [List.mem_filter, Bool.not_eq_true', beq_eq_false_iff_ne, ne_eq] at hx
+    simpa using hx.2
+  · intro k hk
+    unfold ModelSig.getField ModelSig.removeField
+    simp only
+    induction m.fields with
+    | nil => rfl
+    | cons x xs ih =>
+      by_cases hx : x.name = n
+      · have hnk : (n == k) = false := by
+          simp only [beq_eq_false_iff_ne, ne_eq]; intro h; exact hk h.symm
+        simp [List.filter_cons, hx, List.find?_cons, hnk, ih]
+      · have : (!(x.name == n)) = true := by simp [hx]
+        simp only [List.filter_cons, this, if_true, List.find?_cons]
+        split <;> simp_all
+
 end DEvo.Props.C05
